@@ -364,6 +364,17 @@ Section TheoremA.
     evalT F (eval s F') (valueOf s (b_lhs (bd s b)))
           (select (b_cases (bd s b)) (valueOf s (b_lhs (bd s b)))) = Some (value (nd s n)).
 
+  (* [lia] on the order facts only (it is very slow when the context holds the big boolean facts) *)
+  Ltac nlia :=
+    repeat match goal with
+           | H : ?T |- _ =>
+             lazymatch T with
+             | (_ < _)%nat => fail
+             | (_ <= _)%nat => fail
+             | _ => clear H
+             end
+           end; lia.
+
   (** a template that [matches] an instantiated right-hand side evaluates to its value *)
   Lemma template_sound K :
     (forall m, R m -> (rank s m < K)%nat -> notLhs s m = true -> P m /\ Q m) ->
@@ -374,7 +385,7 @@ Section TheoremA.
   Proof using Hwf Hcl Htp Hco.
     intros IHK. induction e as [k| |m|f e IHe|f e1 IHe1 e2 IHe2|c e IHe|cases e IHe|];
       intros fm bx x r Hm Hpf Hr F F' HF HF';
-      (destruct fm as [|fm]; [discriminate Hm|]); (destruct F as [|F]; [lia|]);
+      (destruct fm as [|fm]; [discriminate Hm|]); (destruct F as [|F]; [nlia|]);
       destruct r as [r|]; cbn [matches] in Hm; try discriminate Hm; cbn [evalT valO];
       try (destruct (Hr r eq_refl) as (HRr & Hrk & Hnl)); cbn [rkO] in HF.
     - (* TRet *)
@@ -387,7 +398,7 @@ Section TheoremA.
       rewrite (valueOf_not_always s r) by (rewrite Hm1; discriminate). by rewrite Hm2.
     - (* TOuter *)
       apply bool_decide_eq_true in Hm. subst m.
-      destruct (IHK r HRr Hrk Hnl) as [HP _]. apply HP. lia.
+      destruct (IHK r HRr Hrk Hnl) as [HP _]. apply HP. nlia.
     - (* TMap *)
       apply andb_true_iff in Hm as [Hm Hm3]. apply andb_true_iff in Hm as [Hm1 _].
       apply bool_decide_eq_true in Hm1.
@@ -396,8 +407,8 @@ Section TheoremA.
       destruct (decl_R _ _ HRr Ha) as [HRa Hra].
       assert (Hna : notLhs s a = true).
       { apply (decl_notLhs r); [done| |done]. intros b. rewrite Hm1. discriminate. }
-      rewrite (IHe fm bx x (Some a) Hm3 Hpf) with (F' := F'); [| |cbn [rkO]; lia|done].
-      2:{ intros r' [= <-]. repeat split; [done|lia|done]. }
+      rewrite (IHe fm bx x (Some a) Hm3 Hpf) with (F' := F'); [| |cbn [rkO]; nlia|done].
+      2:{ intros r' [= <-]. repeat split; [done|nlia|done]. }
       destruct (R_cons _ HRr) as [_ Hnc]. unfold node_consistent in Hnc.
       rewrite Hm1, Hd in Hnc. apply Z.eqb_eq in Hnc.
       rewrite (valueOf_not_always s r) by (rewrite Hm1; discriminate). cbn [valO]. by rewrite Hnc.
@@ -413,10 +424,10 @@ Section TheoremA.
       assert (Hk' : forall b, nkind (nd s r) <> KBindMain b) by (intros b; rewrite Hm1; discriminate).
       pose proof (decl_notLhs r a1 HRr Hk' Ha1) as Hna1.
       pose proof (decl_notLhs r a2 HRr Hk' Ha2) as Hna2.
-      rewrite (IHe1 fm bx x (Some a1) Hm3 Hpf1) with (F' := F'); [| |cbn [rkO]; lia|done].
-      2:{ intros r' [= <-]. repeat split; [done|lia|done]. }
-      rewrite (IHe2 fm bx x (Some a2) Hm4 Hpf2) with (F' := F'); [| |cbn [rkO]; lia|done].
-      2:{ intros r' [= <-]. repeat split; [done|lia|done]. }
+      rewrite (IHe1 fm bx x (Some a1) Hm3 Hpf1) with (F' := F'); [| |cbn [rkO]; nlia|done].
+      2:{ intros r' [= <-]. repeat split; [done|nlia|done]. }
+      rewrite (IHe2 fm bx x (Some a2) Hm4 Hpf2) with (F' := F'); [| |cbn [rkO]; nlia|done].
+      2:{ intros r' [= <-]. repeat split; [done|nlia|done]. }
       destruct (R_cons _ HRr) as [_ Hnc]. unfold node_consistent in Hnc.
       rewrite Hm1, Hd in Hnc. apply Z.eqb_eq in Hnc.
       rewrite (valueOf_not_always s r) by (rewrite Hm1; discriminate). cbn [valO]. by rewrite Hnc.
@@ -433,42 +444,42 @@ Section TheoremA.
       rewrite Hm1, Hd in Hnc.
       rewrite (valueOf_not_always s r) by (rewrite Hm1; discriminate).
       destruct c; try discriminate Hpc; apply Z.eqb_eq in Hnc; rewrite Hnc; try reflexivity.
-      + rewrite (IHe fm bx x (Some a) Hm3 Hpf) with (F' := F'); [done| |cbn [rkO]; lia|done].
-        intros r' [= <-]. repeat split; [done|lia|done].
-      + rewrite (IHe fm bx x (Some a) Hm3 Hpf) with (F' := F'); [done| |cbn [rkO]; lia|done].
-        intros r' [= <-]. repeat split; [done|lia|done].
+      + rewrite (IHe fm bx x (Some a) Hm3 Hpf) with (F' := F'); [done| |cbn [rkO]; nlia|done].
+        intros r' [= <-]. repeat split; [done|nlia|done].
+      + rewrite (IHe fm bx x (Some a) Hm3 Hpf) with (F' := F'); [done| |cbn [rkO]; nlia|done].
+        intros r' [= <-]. repeat split; [done|nlia|done].
     - (* TBind *)
       destruct (nkind (nd s r)) as [| | | | | | | |b'] eqn:Hk; try discriminate Hm.
       apply andb_true_iff in Hm as [Hm Hm4]. apply andb_true_iff in Hm as [Hm _].
       apply andb_true_iff in Hm as [_ Hm2]. apply texps_eqb_eq in Hm2.
       simpl in Hpf. apply andb_true_iff in Hpf as [_ Hpf].
       destruct (bindmain_facts _ _ HRr Hk) as (_ & _ & HRb & Hrb & HRl & Hrl & Hnll & Hrhs & _).
-      rewrite (IHe fm bx x (Some (b_lhs (bd s b'))) Hm4 Hpf) with (F' := F'); [| |cbn [rkO]; lia|done].
-      2:{ intros r' [= <-]. repeat split; [done|lia|done]. }
+      rewrite (IHe fm bx x (Some (b_lhs (bd s b'))) Hm4 Hpf) with (F' := F'); [| |cbn [rkO]; nlia|done].
+      2:{ intros r' [= <-]. repeat split; [done|nlia|done]. }
       cbn [valO]. destruct (IHK r HRr Hrk Hnl) as [_ HQ]. rewrite <- Hm2.
       rewrite (HQ b' Hk F F'); [|..].
       + by rewrite (valueOf_not_always s r) by (rewrite Hk; discriminate).
       + destruct (b_rhs (bd s b')) as [x'|] eqn:Hx; cbn [rkO].
-        * destruct (Hrhs x' eq_refl) as (_ & Hrx & _). lia.
-        * lia.
-      + lia.
+        * destruct (Hrhs x' eq_refl) as (_ & Hrx & _). nlia.
+        * nlia.
+      + nlia.
     - (* TNil *) done.
   Qed.
 
   Lemma main_induction K : forall n, R n -> (rank s n < K)%nat -> notLhs s n = true -> P n /\ Q n.
   Proof using Hwf Hcl Htp Hco.
-    induction K as [|K IHK]; [intros; lia|]. intros n Hn Hr Hnl.
+    induction K as [|K IHK]; [intros; nlia|]. intros n Hn Hr Hnl.
     assert (Hin : forall a F, a ∈ decl (nd s n) -> notLhs s a = true -> (rank s n <= F)%nat ->
                               eval s F a = Some (valueOf s a)).
     { intros a F Ha Hna HF. destruct (decl_R _ _ Hn Ha) as [HRa Hra].
-      destruct (IHK a HRa ltac:(lia) Hna) as [HP _]. apply HP. lia. }
+      destruct (IHK a HRa ltac:(nlia) Hna) as [HP _]. apply HP. nlia. }
     destruct (R_cons _ Hn) as [_ Hnc]. unfold node_consistent in Hnc.
     assert (HQ : Q n).
     { intros b Hk F F' HF HF'. rewrite Hk in Hnc. apply andb_true_iff in Hnc as [Hv Hm].
       apply Z.eqb_eq in Hv.
       destruct (bindmain_facts _ _ Hn Hk) as (_ & _ & HRb & Hrb & HRl & Hrl & Hnll & Hrhs & Hpf).
       assert (H1 : forall m, R m -> (rank s m < rank s n)%nat -> notLhs s m = true -> P m /\ Q m).
-      { intros m Hm1 Hm2 Hm3. apply IHK; [done|lia|done]. }
+      { intros m Hm1 Hm2 Hm3. apply IHK; [done|nlia|done]. }
       assert (H2 : parity_free (select (b_cases (bd s b)) (valueOf s (b_lhs (bd s b)))) = true)
         by (by apply parity_free_select).
       assert (H3 : forall r', b_rhs (bd s b) = Some r' ->
@@ -477,20 +488,20 @@ Section TheoremA.
       rewrite (template_sound (rank s n) H1 _ _ _ _ _ Hm H2 H3 F F' HF HF').
       unfold valO. by rewrite Hv. }
     split; [|exact HQ].
-    intros F HF. destruct F as [|F]; [lia|]. cbn [eval]. cbv zeta.
+    intros F HF. destruct F as [|F]; [nlia|]. cbn [eval]. cbv zeta.
     destruct (nkind (nd s n)) as [eqv| |f|f|f|c| |b|b] eqn:Hk.
     - by rewrite (valueOf_not_always s n) by (rewrite Hk; discriminate).
     - by rewrite (valueOf_not_always s n) by (rewrite Hk; discriminate).
     - destruct (decl (nd s n)) as [|a [|? ?]] eqn:Hd; try discriminate Hnc.
-      apply Z.eqb_eq in Hnc. rewrite (Hin a F); [| | |lia].
+      apply Z.eqb_eq in Hnc. rewrite (Hin a F); [| | |nlia].
       + rewrite (valueOf_not_always s n) by (rewrite Hk; discriminate). by rewrite Hnc.
       + left.
       + apply (decl_notLhs n); [done| |rewrite Hd; left]. intros b. rewrite Hk. discriminate.
     - destruct (decl (nd s n)) as [|a1 [|a2 [|? ?]]] eqn:Hd; try discriminate Hnc.
       apply Z.eqb_eq in Hnc.
       assert (Hk' : forall b, nkind (nd s n) <> KBindMain b) by (intros b; rewrite Hk; discriminate).
-      rewrite (Hin a1 F); [| | |lia].
-      + rewrite (Hin a2 F); [| | |lia].
+      rewrite (Hin a1 F); [| | |nlia].
+      + rewrite (Hin a2 F); [| | |nlia].
         * rewrite (valueOf_not_always s n) by (rewrite Hk; discriminate). by rewrite Hnc.
         * right; left.
         * apply (decl_notLhs n); [done|done|rewrite Hd; right; left].
@@ -500,24 +511,24 @@ Section TheoremA.
       assert (Hk' : forall b, nkind (nd s n) <> KBindMain b) by (intros b; rewrite Hk; discriminate).
       rewrite (mapM_Some _ (valueOf s)).
       + rewrite (valueOf_not_always s n) by (rewrite Hk; discriminate). by rewrite Hnc.
-      + intros a Ha. apply Hin; [done| |lia]. by apply (decl_notLhs n).
+      + intros a Ha. apply Hin; [done| |nlia]. by apply (decl_notLhs n).
     - destruct (decl (nd s n)) as [|a [|? ?]] eqn:Hd; try discriminate Hnc.
       assert (Hna : notLhs s a = true).
       { apply (decl_notLhs n); [done| |rewrite Hd; left]. intros b. rewrite Hk. discriminate. }
       rewrite (valueOf_not_always s n) by (rewrite Hk; discriminate).
       destruct c; try (apply Z.eqb_eq in Hnc; rewrite Hnc); try reflexivity.
-      + apply Hin; [left|done|lia].
-      + apply Hin; [left|done|lia].
+      + apply Hin; [left|done|nlia].
+      + apply Hin; [left|done|nlia].
     - destruct (always_shape _ Hk) as (a & Hd & Hlt & Hna). rewrite Hd.
-      rewrite (valueOf_always n a Hk Hd Hlt). apply Hin; [rewrite Hd; left|done|lia].
+      rewrite (valueOf_always n a Hk Hd Hlt). apply Hin; [rewrite Hd; left|done|nlia].
     - unfold notLhs in Hnl. rewrite Hk in Hnl. discriminate Hnl.
     - destruct (bindmain_facts _ _ Hn Hk) as (_ & _ & HRb & Hrb & HRl & Hrl & Hnll & Hrhs & Hpf).
-      destruct (IHK (b_lhs (bd s b)) HRl ltac:(lia) Hnll) as [HPl _].
-      rewrite (HPl F) by lia. rewrite (HQ b Hk F F); [| |lia].
+      destruct (IHK (b_lhs (bd s b)) HRl ltac:(nlia) Hnll) as [HPl _].
+      rewrite (HPl F) by nlia. rewrite (HQ b Hk F F); [| |nlia].
       + by rewrite (valueOf_not_always s n) by (rewrite Hk; discriminate).
       + destruct (b_rhs (bd s b)) as [x'|] eqn:Hx; cbn [rkO].
-        * destruct (Hrhs x' eq_refl) as (_ & Hrx & _). lia.
-        * lia.
+        * destruct (Hrhs x' eq_refl) as (_ & Hrx & _). nlia.
+        * nlia.
   Qed.
 End TheoremA.
 
